@@ -350,8 +350,13 @@ impl WalRecord {
                 let epoch = u64::from_le_bytes(payload[0..8].try_into().unwrap());
                 let count = u32::from_le_bytes(payload[8..12].try_into().unwrap()) as usize;
 
-                let segments_end = 12 + count * 16;
-                if payload.len() < segments_end + 8 {
+                // `count` comes from the log: it must be covered by the payload (16 bytes per
+                // segment plus the two trailing roots) before anything is sized by it.
+                let segments_end = count
+                    .checked_mul(16)
+                    .and_then(|n| n.checked_add(12))
+                    .ok_or(Error::WalProtocol("invalid ManifestSwitch payload length"))?;
+                if payload.len() < segments_end.saturating_add(16) {
                     return Err(Error::WalProtocol("invalid ManifestSwitch payload length"));
                 }
 
